@@ -38,7 +38,7 @@ def _case(draw):
     cur = draw(st.sampled_from([True, True, True, False]))
     spec = draw(D.dataset_spec(dense=True, raw=False, features=False, tfeatures=False,
                                naming='ks', curated=cur, max_nc=16, int_templates=False,
-                               amplitudes=True, footprints=True))
+                               amplitudes=True, footprints=True, symlinks=True))
     ns = spec['ns']
     edits = draw(st.lists(st.tuples(st.integers(0, ns - 1), st.integers(0, 14)), max_size=4))
     return {'spec': spec, 'ncc': draw(st.integers(2, 12)), 'edits': [list(e) for e in edits]}
@@ -178,17 +178,32 @@ def check(case):
                                 observed=data[c], expected=exp[0][1])
                         info['checked_multi'] += 1
                     else:
-                        b = must_return(what, m.get_cluster_mean_waveforms, c, unwhiten=unwhiten)
-                        chs = [int(x) for x in b.channel_ids]
-                        ok = False
-                        for lst, full in exp:
-                            if sorted(chs) == lst and np.allclose(
-                                    b.mean_waveforms, full[:, chs], rtol=1e-5,
-                                    atol=1e-5 * max(scale, float(np.max(np.abs(full))))):
-                                ok = True
-                        require(ok, what + ' differs from the weighted-mean formula',
-                                key='mean-waveforms', observed=(chs, b.mean_waveforms),
-                                expected=(exp[0][0], exp[0][1][:, exp[0][0]]))
+                        for attempt in (0, 1):
+                            b = must_return(what, m.get_cluster_mean_waveforms, c,
+                                            unwhiten=unwhiten)
+                            chs = [int(x) for x in b.channel_ids]
+                            ok = False
+                            for lst, full in exp:
+                                if sorted(chs) == lst and np.allclose(
+                                        b.mean_waveforms, full[:, chs], rtol=1e-5,
+                                        atol=1e-5 * max(scale, float(np.max(np.abs(full))))):
+                                    ok = True
+                            require(ok, what + ' differs from the weighted-mean formula' +
+                                    (' (second call, after the caller edited earlier results in '
+                                     'place)' if attempt else ''),
+                                    key='mean-waveforms', observed=(chs, b.mean_waveforms),
+                                    expected=(exp[0][0], exp[0][1][:, exp[0][0]]))
+                            if attempt == 0:
+                                # the caller owns what it was given: it sorts / rescales it
+                                edited = core.scribble([b.channel_ids, b.mean_waveforms])
+                                for t in ts:
+                                    r = must_return('get_template', m.get_template, t,
+                                                    unwhiten=unwhiten)
+                                    edited = core.scribble([r.template, r.channel_ids,
+                                                            r.amplitude]) or edited
+                                if not edited:
+                                    break
+                                info['edited_results'] = True
             # the in-memory spike_clusters may be edited during manual clustering: the map computed
             # afterwards describes the edited vector
             if case.get('edits'):
@@ -228,6 +243,8 @@ def classify(case, info):
         labels.append('multi-template-cluster-checked')
     if info['ambiguous']:
         labels.append('ambiguous-skipped')
+    if info.get('edited_results'):
+        labels.append('results-edited-in-place-then-queried-again')
     if s['wm']:
         labels.append('whitened')
     return labels, nt
